@@ -2,6 +2,20 @@
 import json
 import os
 
+META = {
+    'category': 'proof',
+    'text': ('Coq theorems over an executable model of eligible/aggregate/classify (grouping = at most one new group per '
+             'candidate and none when it shares an actor or evidence id; insufficient iff nobody engaged; rejected needs '
+             'decisive opposition; score in [0,1], monotone, symmetric over exact rationals; the binary64 score is a '
+             'function of the multiset because the fold runs over the sorted maxima), generated facts re-extracted from '
+             'the source on every run, and a bit-exact correspondence run of model vs implementation.'),
+    'design_ref': 'DESIGN.md section 4 / C20',
+    'note': ('Trusted: Coq kernel + vm_compute on primitive floats; translator; harness + hook '
+             'projection::verif; IEEE facts about f64::total_cmp (premises). Rows are supplied decoded; the KQL glue '
+             'around project_belief is exercised by the end-to-end part only.'),
+    'technique': 'Coq proof (induction over group lists, canonical sorted form) + translator-generated facts + differential model/impl run',
+}
+
 IMPORTS = 'From Verif Require Import Belief.Model Belief.Run.'
 
 
